@@ -3900,6 +3900,17 @@ size_t space_col_align(Chunk *first, Chunk *second)
            second->Text());
    log_func_stack_inline(LSPACE);
 
+   if (  options::sp_skip_vbrace_tokens()
+      && first->GetNlCount() == 0
+      && (  (  first->IsVBrace()
+            && first->IsEmptyText())
+         || (  second->IsVBrace()
+            && second->IsEmptyText())))
+   {
+      // space_text() dropped the virtual brace onto the token before it and
+      // decided the space between the real tokens: the virtual brace takes no room
+      return(first->Len());
+   }
    int    min_sp;
    iarf_e av = do_space_ensured(first, second, min_sp);
 
